@@ -70,7 +70,13 @@ impl Known {
         }
         let trig = triggers(src, root);
         act.iter()
-            .find(|id| trig.iter().any(|t| (*t == id.as_str() && applies(id, cfg)) || (*t == "R22w" && id.as_str() == "R22")))
+            .find(|id| {
+                trig.iter().any(|t| {
+                    (*t == id.as_str() && applies(id, cfg))
+                        || (*t == "R22w" && id.as_str() == "R22")
+                        || (*t == "R31s" && id.as_str() == "R31" && cfg.is_none_or(|c| c.tab >= 2))
+                })
+            })
             .cloned()
     }
 }
@@ -315,10 +321,19 @@ pub fn triggers(src: &str, root: &SyntaxNode) -> Vec<&'static str> {
                         }
                         continue;
                     }
-                    // any earlier sibling on the same line that spans several lines
+                    // any earlier sibling on the same line that spans several lines because of a token
+                    // that is copied verbatim (string, raw text, a node behind `@typstyle off`, an
+                    // equation with a multi-line comment): the printer loses track of the column there
                     if syn::has_nl(&syn::text_of(p)) {
-                        add("R33");
-                        break;
+                        let verbatim = syn::any_node(p, &mut |x| {
+                            (matches!(x.kind(), K::Str | K::Raw) && syn::has_nl(&syn::text_of(x)))
+                                || (syn::is_comment(x.kind()) && x.text().contains(crate::oracle::off::DIRECTIVE))
+                        }) || matches!(p.kind(), K::Str | K::Raw)
+                            || kids[..j].iter().any(|q| syn::is_comment(q.kind()) && q.text().contains(crate::oracle::off::DIRECTIVE));
+                        if verbatim {
+                            add("R33");
+                            break;
+                        }
                     }
                 }
             }
@@ -614,7 +629,32 @@ pub fn triggers(src: &str, root: &SyntaxNode) -> Vec<&'static str> {
                 if f.parent == Some(K::ContentBlock) {
                     let first = f.node.children().find(|c| c.kind() != K::Space || syn::has_nl(c.text()));
                     if first.is_some_and(|c| matches!(c.kind(), K::ListItem | K::EnumItem | K::TermItem)) {
-                        add("R31");
+                        // where can the bracket stand on its output line? Behind `#` or a callee (marker two
+                        // or more columns behind the indentation: units >= 3 are affected) or, as an item
+                        // of a code list, at the start of the line (units >= 2 are affected)
+                        let block = f.parent_idx.map(|p| &flat[p]);
+                        let behind_something = block.is_some_and(|b| {
+                            match b.parent {
+                                Some(K::Markup | K::Math | K::Equation | K::MathDelimited | K::MathAttach | K::MathFrac | K::MathRoot) => true,
+                                // trailing content argument: `f(..)[` / `f[`
+                                Some(K::Args) => b.parent_idx.is_some_and(|a| {
+                                    let mut seen_close = !flat[a].node.children().any(|c| c.kind() == K::LeftParen);
+                                    let mut off = flat[a].start;
+                                    for c in flat[a].node.children() {
+                                        if off == b.start {
+                                            return seen_close;
+                                        }
+                                        if c.kind() == K::RightParen {
+                                            seen_close = true;
+                                        }
+                                        off += c.len();
+                                    }
+                                    false
+                                }),
+                                _ => false,
+                            }
+                        });
+                        add(if behind_something { "R31" } else { "R31s" });
                     }
                 }
                 // R30: list / enum / term items inside strong or emphasis: the edge blanks of the
@@ -669,6 +709,30 @@ pub fn triggers(src: &str, root: &SyntaxNode) -> Vec<&'static str> {
                     let last_sig = f.node.children().filter(|c| c.kind() != K::Space).last();
                     if !single_line && b != 2 && last_sig.is_some_and(|c| matches!(c.kind(), K::ListItem | K::EnumItem | K::TermItem)) {
                         add("R35");
+                    }
+                }
+                // R18 (trailing form): a marker-like word alone on the last line directly before the
+                // closing delimiter
+                {
+                    let kids: Vec<&SyntaxNode> = f.node.children().collect();
+                    if let Some(last) = kids.last() {
+                        if last.kind() == K::Text {
+                            let w = last.text().as_str();
+                            let marker = w == "-" || w == "+" || (w.len() > 1 && w.ends_with('.') && w[..w.len() - 1].chars().all(|ch| ch.is_ascii_digit()));
+                            let at_line_start = kids.len() >= 2 && { let p = kids[kids.len() - 2]; p.kind() == K::Parbreak || (p.kind() == K::Space && syn::has_nl(p.text())) };
+                            if marker && at_line_start {
+                                add("R18");
+                            }
+                        }
+                    }
+                    // ... also inside the last list item of the body (`#[- o<nl>   0.]`)
+                    if let Some(item) = kids.iter().rev().find(|c| c.kind() != K::Space).filter(|c| matches!(c.kind(), K::ListItem | K::EnumItem | K::TermItem)) {
+                        let txt = syn::text_of(item);
+                        let last_line = txt.rsplit(syn::is_nl).next().unwrap_or("").trim_start();
+                        let marker = last_line == "-" || last_line == "+" || (last_line.len() > 1 && last_line.ends_with('.') && last_line[..last_line.len() - 1].chars().all(|ch| ch.is_ascii_digit()));
+                        if marker && syn::has_nl(&txt) && kids.last().is_some_and(|l| l.kind() != K::Space) {
+                            add("R18");
+                        }
                     }
                 }
                 let mut kids = f.node.children();
